@@ -19,7 +19,7 @@ RULE = ("seeded workloads (grids / case lists / cases x sub-grids, 1-40 settings
         "1..n+1 | num_batches in 1..n+2 | neither x shuffle in {False, True, int} given to the constructor or the sow "
         "call x sow_combos/sow_cases x grow plans (random permutations and partitions of batch ids over grow(), "
         "Crop.grow, grow_missing, num_workers, grow from inside the crop folder, repeated grows) x a new Crop object "
-        "from name+directory between steps x steps in fresh interpreters with a by-value pickled function; scalar-valued crops are also collected as a table (to_df, nothing deleted) before the usual reap; distinct "
+        "from name+directory between steps x steps in fresh interpreters with a by-value pickled function; scalar-valued crops are also collected as a table (to_df, nothing deleted) before the usual reap; reaps told to wait (also on ten and more batches); decorated functions whose decorator is the observable part; another thread drawing from the shared random generator right after each seeding; crops sown anew behind a long-lived Crop object with preserved time stamps; distinct "
         "by (workload shape, batching, shuffle, plan); non-trivial when >= 2 batches")
 ASSUMPTIONS = [
     "a raw reap may nest its axes in the crop's canonical (name-sorted) argument order or in the given order; values are compared per labelled position",
